@@ -282,6 +282,7 @@ def expandPosition(spacegroup, xyz, sgoffset=[0, 0, 0], eps=None):
         pos = symop(xyz + sgoffset) - sgoffset
         mask = numpy.logical_or(pos < 0.0, pos >= 1.0)
         pos[mask] -= numpy.floor(pos[mask])
+        pos[pos == 1.0] = 0.0  # x - floor(x) rounds up to 1.0 for tiny negative x
         tpl = pos2tuple(pos)
         if tpl not in site_symops:
             pos_is_new = True
